@@ -19,7 +19,7 @@ Record sst := {
 }.
 Definition sst0 : sst := {| x_nb := 0; x_names := []; x_idx := []; x_npos := 0; x_norient := 0; x_nweights := 0; x_nradii := 0; x_ntri := 0 |}.
 
-Definition E_GENERIC : Z := 2.     (* OpenMEEG::GenericError as reported by the harness *)
+Definition E_GENERIC : Z := 2160.     (* OpenMEEG::GenericError: 2000 + BAD_GENERIC as reported by the harness *)
 
 Fixpoint index_of (x : Z) (l : list Z) : option nat :=
   match l with [] => None | y :: t => if x =? y then Some 0%nat else option_map S (index_of x t) end.
